@@ -4,8 +4,8 @@
     are the deployed ones the theorems were proved about; and the theorems
     instantiated with the regenerated objects. *)
 From Coq Require Import List NArith Bool String.
-From Verif Require Import Aries.Str Aries.Radix Aries.SegTrie Aries.Router Aries.Tiers
-  Aries.RouterProofs Aries.TiersProofs Gen.AriesSkel.
+From Verif Require Import Aries.Str Aries.Radix Aries.SegTrie Aries.Router Aries.Tiers Aries.Entry
+  Aries.RouterProofs Aries.TiersProofs Aries.EntryProofs Gen.AriesSkel Gen.AriesEntry.
 Import ListNotations.
 
 (** [Serve] as it is in the source today passes the gating check. *)
@@ -55,3 +55,69 @@ Lemma gen_router_serve_spec ops c :
   router_serve_with gen_dispatch_cond gen_method_reject (fst (router_run new_router ops)) c =
   ref_router_serve (fst (rref_run new_rref ops)) c.
 Proof. rewrite gen_dispatch_cond_ok, gen_method_reject_ok. apply router_serve_spec. Qed.
+
+(** * Round 2: the HTTP entry, ErrCode, nil handlers, register-then-serve *)
+
+(** NewContext routes on URL.Path, nothing else. *)
+Lemma gen_ctx_src_ok : gen_ctx_path_src = USPath /\ gen_ctx_route_src = USPath.
+Proof. vm_compute. split; reflexivity. Qed.
+
+Lemma gen_errcode_ok : gen_errcode_table = errcode_table /\ gen_errcode_default = errcode_default.
+Proof. vm_compute. split; reflexivity. Qed.
+
+(** Router.add refuses a nil handler however it is wrapped; Index/Default
+    turn a nil Func into "none". *)
+Lemma gen_router_nil_ok :
+  gen_router_add_refuses_nil = true /\ gen_router_nil_index_is_none = true.
+Proof. vm_compute. split; reflexivity. Qed.
+
+(** Scope "register everything, then serve": no serving method writes to a
+    routing structure, and nowhere in the repository is a registration made
+    from inside a handler or a goroutine. *)
+Lemma gen_serving_readonly : gen_serving_writes = [].
+Proof. vm_compute. reflexivity. Qed.
+
+Lemma gen_no_late_registration : gen_late_registrations = [].
+Proof. vm_compute. reflexivity. Qed.
+
+Lemma gen_new_actx_spec u method host :
+  exists a, new_actx_with gen_ctx_path_src gen_ctx_route_src u method host = Some a /\
+    a_path a = u_path u /\ a_host a = host /\
+    c_routes (a_ctx a) = segs (u_path u) /\ Forall good_seg (c_routes (a_ctx a)) /\
+    c_pos (a_ctx a) = 0%nat /\ c_isdir (a_ctx a) = path_is_dir (u_path u) /\
+    c_method (a_ctx a) = method.
+Proof.
+  destruct gen_ctx_src_ok as [-> ->]. apply new_actx_spec.
+Qed.
+
+Lemma gen_new_actx_ignores_raw u u' method host :
+  u_path u = u_path u' ->
+  new_actx_with gen_ctx_path_src gen_ctx_route_src u method host =
+  new_actx_with gen_ctx_path_src gen_ctx_route_src u' method host.
+Proof. destruct gen_ctx_src_ok as [-> ->]. apply new_actx_ignores_raw. Qed.
+
+Lemma gen_status_spec e :
+  status_with gen_errcode_table gen_errcode_default e =
+  match e with
+  | ENil => 200 | ENotFound => 404 | EInternal => 500
+  | EUnauthorized => 403 | EInvalidArg => 400 | EOther => 500
+  end%N.
+Proof. destruct gen_errcode_ok as [-> ->]. apply status_of_spec. Qed.
+
+Lemma gen_serve_internal_all_gated s c0 :
+  frame_ok s ->
+  all_gated_ok s (fst (run gen_default_admin gen_serve_auth_prog s gen_serve_internal_prog c0)).
+Proof.
+  rewrite gen_default_admin_ok, gen_serve_auth_prog_ok, gen_serve_internal_prog_ok.
+  apply serve_internal_all_gated.
+Qed.
+
+(** With the guards in place (obligation above), what a nil handler does. *)
+Lemma gen_router_nil_handler r p dir m :
+  gen_router_add_refuses_nil = true /\ gen_router_nil_index_is_none = true /\
+  router_add_svc r p None dir m = None /\
+  rt_index (set_index r None) = None /\ rt_miss (set_default r None) = None.
+Proof. destruct gen_router_nil_ok. repeat split; auto. Qed.
+
+Lemma gen_scope_register_then_serve : gen_serving_writes = [] /\ gen_late_registrations = [].
+Proof. split; [apply gen_serving_readonly | apply gen_no_late_registration]. Qed.
